@@ -118,7 +118,8 @@ def Sys.init : Sys :=
 
 /-- a user closure producing properties; `reenter` selects what else it does when invoked:
     0 nothing, 1 enter+drop a `LocalSpan`, 2 `LocalSpan::add_event`,
-    3 `Span::enter_with_local_parent` + drop, 4 `SpanContext::current_local_parent()` -/
+    3 `Span::enter_with_local_parent` + drop, 4 `SpanContext::current_local_parent()`,
+    5 the properties come from a lazy iterator whose every item enters+drops a `LocalSpan` -/
 structure Closure where
   kvs : Props
   reenter : Nat
@@ -164,6 +165,9 @@ inductive Op where
   | closeUnder                              -- drop the scope / collector guard beneath the still-open local spans
   | collectUnder (x : String)               -- `collector.collect()` while local spans recorded in it are still open
   | unwind                                  -- a panic unwinds through the thread's guards and is caught
+  | rootFrom (v name p : String) (viaTraceparent : Bool)   -- `Span::root(name, SpanContext::from_span(&p)?)`; the
+                                            -- context may travel as a W3C traceparent string (identity: C12_roundtrip)
+  | rootFromLocal (v name : String) (viaTraceparent : Bool) -- … from `SpanContext::current_local_parent()?`
 deriving Repr, Inhabited
 
 structure Stats where
@@ -320,16 +324,22 @@ def Sys.closeGuard (s : Sys) (t : Nat) (g : Guard) : Sys :=
     let (stack, _) := th.stack.unregisterAndCollect epoch
     s.setTh t { th with stack := stack }
 
+/-- a `LocalSpan` entered and dropped by user code -/
+def Sys.enterExitLocal (s : Sys) (t : Nat) : Sys :=
+  let th := s.th t
+  match th.stack.enterSpan (s.ctr t) "cl" with
+  | none => s
+  | some (stack, h, c) =>
+    let (stack, c) := stack.exitSpan c h
+    (s.setTh t { th with stack := stack }).putCtr t c
+
 /-- what a closure does besides returning its properties -/
 def Sys.runClosure (s : Sys) (t : Nat) (cl : Closure) : Sys :=
   match cl.reenter with
-  | 1 =>
-    let th := s.th t
-    match th.stack.enterSpan (s.ctr t) "cl" with
-    | none => s
-    | some (stack, h, c) =>
-      let (stack, c) := stack.exitSpan c h
-      (s.setTh t { th with stack := stack }).putCtr t c
+  | 1 => s.enterExitLocal t
+  | 5 =>
+    -- a lazy iterator: every item is produced by user code that enters a `LocalSpan`
+    cl.kvs.foldl (fun s _ => s.enterExitLocal t) s
   | 2 =>
     let th := s.th t
     let (stack, c) := th.stack.addEvent (s.ctr t) "cl-ev" none
@@ -547,6 +557,16 @@ def Sys.collectUnder (s : Sys) (t : Nat) (x : String) : Sys × Obs :=
     ({ (s.putCtr t c) with lspans := assocSet s.lspans x ⟨(res.getD ([], none)).1, now⟩ }, .ok)
   | _ => (s, .badOp "no collector under the open local spans")
 
+/-- `Span::root(name, SpanContext { trace_id, span_id, sampled })` -/
+def Sys.rootOp (s : Sys) (t : Nat) (v name : String) (trace span : Nat) (sampled : Bool) : Sys × Obs :=
+  if !s.reporterReady then ({ s with spans := assocSet s.spans v none }, .ok) else
+  if sampled ∧ s.regLocked ∧ !(s.th t).registered then (s, .badOp "blocked: registry locked by the drain") else
+  if sampled then
+    ((({ s with nextCollect := s.nextCollect + 1 }).sendCmd t (.start s.nextCollect) false).newSpan t v name
+      [⟨trace, span, s.nextCollect, true, sampled⟩] (some s.nextCollect), .ok)
+  else
+    (s.newSpan t v name [⟨trace, span, Consts.notSampledCollectId, true, sampled⟩] (some Consts.notSampledCollectId), .ok)
+
 def exec (s : Sys) (t : Nat) (op : Op) : Sys × Obs :=
   let th := s.th t
   match op with
@@ -560,15 +580,22 @@ def exec (s : Sys) (t : Nat) (op : Op) : Sys × Obs :=
     match s.register t with
     | some s => (s, .ok)
     | none => (s, .badOp "blocked: registry locked by the drain")
-  | .root v name trace span sampled =>
-    if !s.reporterReady then ({ s with spans := assocSet s.spans v none }, .ok) else
-    if sampled ∧ s.regLocked ∧ !th.registered then (s, .badOp "blocked: registry locked by the drain") else
-    let (cid, s) :=
-      if sampled then
-        let cid := s.nextCollect
-        (cid, ({ s with nextCollect := cid + 1 }).sendCmd t (.start cid) false)
-      else (Consts.notSampledCollectId, s)
-    (s.newSpan t v name [⟨trace, span, cid, true, sampled⟩] (some cid), .ok)
+  | .root v name trace span sampled => s.rootOp t v name trace span sampled
+  | .rootFrom v name p _ =>
+    match assocGet s.spans p with
+    | none => (s, .badOp "unknown span")
+    | some none => (s, .badOp "no context")
+    | some (some sp) =>
+      match ctxOfToken (issueToken sp) with
+      | none => (s, .badOp "no context")
+      | some c => s.rootOp t v name c.traceId c.spanId c.sampled
+  | .rootFromLocal v name _ =>
+    match th.stack.currentToken with
+    | none => (s, .badOp "no context")
+    | some tok =>
+      match ctxOfToken tok with
+      | none => (s, .badOp "no context")
+      | some c => s.rootOp t v name c.traceId c.spanId c.sampled
   | .child1 v name p =>
     match assocGet s.spans p with
     | none => (s, .badOp "unknown span")
